@@ -120,8 +120,18 @@ def payload_drops(crate):
     return out
 
 
+def _noidx(k):
+    return re.sub(r'\{closure#\d+\}', '{closure}', k)
+
+
+def _batch_serialised(f, ty):
+    """the batch of registered bridge requests may be dropped by the function that serialised it by reference"""
+    return ty.startswith('alloc::vec::Vec<crux_core::bridge::Request<') and any(True for _ in f.calls('erased_serde::ser::Serialize::erased_serialize'))
+
+
 def check_linear(rep, crate, cfg, rid='R01.c', only=None):
     counts = {}
+    table = {(_noidx(k[0]), k[1]): v for k, v in DROP_TABLE.items()}
     missing = set(f.path for f in crate.built) - set(f.path for f in crate.elab)
     if missing or crate.j.get('elab_stolen'):
         rep.bad(rid, 'elab-incomplete@' + cfg, 'drop-elaborated MIR is missing for %d bodies (%s ...): the linear rule would be blind there'
@@ -129,11 +139,13 @@ def check_linear(rep, crate, cfg, rid='R01.c', only=None):
     for f, bb, ty, how in payload_drops(crate):
         if only is not None and not only(f, ty):
             continue
-        key = (f.kpath, ty)
+        key = (_noidx(f.kpath), ty)
         counts.setdefault(key, []).append((f, bb, how))
     for key, sites in sorted(counts.items()):
         fk, ty = key
-        row = DROP_TABLE.get(key)
+        row = table.get(key)
+        if row is None and _batch_serialised(sites[0][0], ty):
+            row = (2, 'the batch of registered requests is dropped after it has been serialised by reference (both exits)')
         k = '%s|drops %s' % (fk, ty)
         if row is None:
             f, bb, how = sites[0]
@@ -221,6 +233,12 @@ def check_process(rep, core):
     rep.expect('R01.a', bool(ne) and all(r not in f.reachable([0], removed_edges=ne) for r in rets), 'return-only-when-empty',
                'the return is reachable only through the None edge of the event receive',
                'Core::process can return while events are still queued')
+    # (v) quiescence: no work is run after the last look at the event channel — every path from a run of the executor to the return
+    #     passes the None edge of the receive (events emitted by that run are seen before returning)
+    rep.expect('R01.a', bool(ne) and all(f.all_paths_pass(b, rets, via_edges=ne) for b in run_all), 'look-after-every-run',
+               'every path from a run_all to the return passes the None edge of the event receive',
+               'Core::process can run the executor and return without looking at the event channel again: events emitted by that run '
+               'stay queued (unapplied) until some later, unrelated call')
     ef_ty = dt['args'][0]['t']
     after_drain = f.reachable_after(db)
     rep.expect('R01.a', 'Effect' in ef_ty and not (set(run_all + updates + spawns) & after_drain) and all(r in after_drain for r in rets),
@@ -278,16 +296,10 @@ def check_entry_points(rep, core):
         ok = len(prs) == 1 and len(oks) >= 1 and all(rs.dominates(prs[0], b) for b in oks)
         rep.expect('R01.b', ok, 'resolve', 'the Ok return of Core::resolve is dominated by process()',
                    'Core::resolve can return Ok without settling through process()')
-    bp = single(rep, 'R01.b', core, 'crux_core::bridge::BridgeWithSerializer::process')
-    if bp is not None:
-        a = [bb for bb, t in bp.calls('crux_core::core::Core::process_event')]
-        b = [bb for bb, t in bp.calls('crux_core::core::Core::process')]
-        regs = [bb for bb, t in bp.calls('core::iter::traits::iterator::Iterator::map', 'core::iter::traits::iterator::Iterator::collect')]
-        sers = [bb for bb, t in bp.calls('erased_serde::ser::Serialize::erased_serialize')]
-        ok = len(a) == 1 and len(b) == 1 and len(sers) == 1 and \
-            sers[0] not in bp.reachable([0], removed_blocks=a + b)
-        rep.expect('R01.b', ok, 'bridge-process', 'both arms of the bridge settle through the core before anything is serialised',
-                   'BridgeWithSerializer::process can serialise requests without having run Core::process_event / Core::process')
+    from rules.props import c09
+    ok, detail = c09.bridge_pipeline(core)
+    rep.expect('R01.b', ok, 'bridge-process', 'the serialised requests are the registered effects returned by Core::process_event / Core::process (%s)' % detail,
+               'the bridge can serialise requests that are not the effects of a run of the core through process_event / process (%s)' % detail)
 
 
 def payload_sinks(fn, scrut_local, variant):
@@ -454,10 +466,10 @@ def check_executor_loops(rep, core):
 
 
 def check(ctx, rep):
-    rep.rule('R01.a', 'Core::process: run before look, re-run after update/spawn, return only when no event is left, return the drain', floor=7)
+    rep.rule('R01.a', 'Core::process: run before look, re-run after update/spawn, return only when no event is left, return the drain', floor=8)
     rep.rule('R01.b', 'every entry point settles through Core::process', floor=3)
-    rep.rule('R01.c', 'no effect/event/request/command/response value is dropped on a normal path outside the exception table', floor=8)
-    rep.rule('R01.d', 'every match on CommandOutput forwards Effect to the effect channel and Event to the event channel', floor=8)
+    rep.rule('R01.c', 'no effect/event/request/command/response value is dropped on a normal path outside the exception table', floor=1)
+    rep.rule('R01.d', 'every match on CommandOutput forwards Effect to the effect channel and Event to the event channel', floor=4)
     rep.rule('R01.e', 'both executor loops read both queues and exit only after an idle pass', floor=5)
     core = ctx.crate('default', 'crux_core')
     if core is None:
